@@ -383,12 +383,12 @@ Proof. exact ProofsFloat.fexp64_FLT. Qed.
 
 (* Error bound, PARTIAL: one fraction without group (a left-to-right chain, every document inserted once):
    if no running sum overflows, |Sum - exact sum| <= ((1+u)^n - 1) * sum|x_i| with u = 2^-53 (u64_val).
-   Full statement NOT proved (kept as comment): for every merge tree t with n entries whose intermediate sums
-   do not overflow and whose products num*float64(cnt) neither overflow nor underflow,
-     Rabs (SF2R radix2 (f_sum (eval_stree t)) - rsum (sentries t)) <= ((1+u)^(n + depth t + 1) - 1) * rabs_sum (sentries t).
-   Missing: the relative-error step for the rounded product num*float64(cnt) (needs an underflow side
-   condition) and the induction over Merge nodes (same step lemma, step_bound).  The correspondence's spec
-   checker uses the coarser executable bound N*2^-52*sum|x| + N units of 2^-1074 on every case. *)
+   Merge trees with all counts 1 are covered by C06_float_sum_error_bound_tree below.  Full statement NOT proved
+   (kept as comment): for every merge tree t, ALSO with counts > 1, whose intermediate sums do not overflow and whose
+   products num*float64(cnt) neither overflow nor underflow,
+     Rabs (SF2R radix2 (f_sum (eval_stree t)) - rsum (sentries t)) <= ((1+u)^(rounds t + 1) - 1) * rabs_sum (sentries t).
+   Missing: the relative-error step for the rounded product num*float64(cnt) (needs an underflow side condition).
+   The correspondence's spec checker uses the coarser executable bound N*2^-52*sum|x| + N units of 2^-1074 on every case. *)
 Theorem C06_float_sum_error_bound_partial :
   forall es, Forall entry_one es -> chain_finite fnew es ->
     sf_finite (f_sum (eval_leaf es)) = true /\
@@ -434,3 +434,28 @@ Example C06_float_exact_nonvacuous :
   bits_of_sf (f_sum (eval_stree t)) = 0x401C000000000000%Z /\       (* 7.0 *)
   bits_of_sf (fvalue FAvg (eval_stree t)) = 0x3FFC000000000000%Z.   (* 1.75 *)
 Proof. exact ProofsFloat.exact_nonvacuous. Qed.
+
+(* Error bound over MERGE TREES, every count 1 (fractions without group: one InsertNTimes(num, 1) per document; the
+   product num * float64(1) is exact): for every merge tree t in which no running sum of a fraction and no sum formed
+   by a Merge overflows ([tree_finite]), |Sum - exact sum| <= ((1+u)^k - 1) * sum|x_i| with u = 2^-53 and
+   k = [rounds t] = the largest number of rounded additions any value goes through (a fraction's chain of m values
+   counts m, every Merge above it one more; k <= number of values + number of merges).  Proved by induction over the
+   tree with the single-addition error lemma |fl(a+b) - (a+b)| <= u|a+b| (Flocq FLT_plus_error_N_ex, valid also in the
+   subnormal range).  Still excluded: counts > 1 (the rounded product num * float64(cnt) of the grouped aggregator). *)
+Theorem C06_float_sum_error_bound_tree :
+  forall t, Forall entry_one (sentries t) -> tree_finite t ->
+    sf_finite (f_sum (eval_stree t)) = true /\
+    (Rabs (SF2R radix2 (f_sum (eval_stree t)) - rsum (sentries t)) <= ((1 + u64) ^ rounds t - 1) * rabs_sum (sentries t))%R.
+Proof. exact ProofsFloat.float_sum_error_bound_tree. Qed.
+Print Assumptions C06_float_sum_error_bound_tree.
+
+(* non-vacuity: 0.1 and 0.2 in one fraction, 0.3 in a second, 0.1 in a third, merged as (f1 + f2) + f3: the hypotheses
+   hold, k = 4 *)
+Example C06_float_tree_bound_nonvacuous :
+  let a := sf_of_bits 0x3FB999999999999A in let b := sf_of_bits 0x3FC999999999999A in
+  let c := sf_of_bits 0x3FD3333333333333 in
+  let t := SNode (SNode (SLeaf [(a, 1%Z); (b, 1%Z)]) (SLeaf [(c, 1%Z)])) (SLeaf [(a, 1%Z)]) in
+  Forall entry_one (sentries t) /\ tree_finite t /\ rounds t = 4%nat.
+Proof.
+  cbv zeta. split; [repeat constructor|]. split; [|reflexivity]. vm_compute. repeat split.
+Qed.
